@@ -433,10 +433,121 @@ class _Deannotate(ast.NodeTransformer):
         return node
 
 
+def _cm_generators(tree: ast.Module) -> Dict[str, ast.FunctionDef]:
+    """private generator functions / methods decorated with @contextmanager whose body is  PRE..; yield; POST..
+    (no try, no value yielded, parameters used as plain names)"""
+    out: Dict[str, ast.FunctionDef] = {}
+    for n in ast.walk(tree):
+        if isinstance(n, ast.FunctionDef) and any(ast.unparse(d).split(".")[-1] == "contextmanager" for d in n.decorator_list):
+            body = [s for s in n.body if not (isinstance(s, ast.Expr) and isinstance(s.value, ast.Constant))]
+            ys = [i for i, s in enumerate(body) if isinstance(s, ast.Expr) and isinstance(s.value, ast.Yield) and s.value.value is None]
+            n_y = sum(1 for x in ast.walk(n) if isinstance(x, (ast.Yield, ast.YieldFrom)))
+            if len(ys) != 1 or n_y != 1:
+                continue
+            if any(isinstance(x, (ast.Try, ast.Return, ast.With, ast.FunctionDef, ast.Lambda)) for s in body for x in ast.walk(s)):
+                continue
+            if n.args.vararg or n.args.kwarg or n.args.kwonlyargs or n.args.defaults:
+                continue
+            out[n.name] = n
+    return out
+
+
+class _InlineCM(ast.NodeTransformer):
+    """`with self._cm(x): BODY` where _cm is `PRE; yield; POST` and BODY has no return/break/continue  ->  PRE; BODY; POST
+    (exactly what runs when nothing raises; on an exception neither form runs POST)"""
+
+    def __init__(self, gens: Dict[str, ast.FunctionDef]):
+        self.gens = gens
+        self.n = 0
+
+    def _expand(self, node: ast.With):
+        if len(node.items) != 1 or node.items[0].optional_vars is not None:
+            return None
+        c = node.items[0].context_expr
+        if not isinstance(c, ast.Call) or c.keywords or any(isinstance(a, ast.Starred) for a in c.args):
+            return None
+        if isinstance(c.func, ast.Name):
+            name, recv = c.func.id, None
+        elif isinstance(c.func, ast.Attribute) and isinstance(c.func.value, ast.Name):
+            name, recv = c.func.attr, c.func.value
+        else:
+            return None
+        g = self.gens.get(name)
+        if g is None:
+            return None
+        params = [a.arg for a in g.args.posonlyargs + g.args.args]
+        if recv is not None:
+            if not params:
+                return None
+            bind = {params[0]: recv}
+            params = params[1:]
+        else:
+            bind = {}
+        if len(params) != len(c.args):
+            return None
+        if any(isinstance(x, (ast.Return, ast.Break, ast.Continue, ast.Yield, ast.YieldFrom)) for s in node.body for x in ast.walk(s)):
+            return None
+        pre_stmts: list = []
+        for p_, a_ in zip(params, c.args):
+            if isinstance(a_, (ast.Name, ast.Constant)):
+                bind[p_] = a_
+            else:
+                self.n += 1
+                tmp = f"_cm_arg_{self.n}"
+                pre_stmts.append(ast.copy_location(ast.Assign(targets=[ast.Name(id=tmp, ctx=ast.Store())], value=a_, type_comment=None), node))
+                bind[p_] = ast.Name(id=tmp, ctx=ast.Load())
+        # parameters must not be re-bound in the generator
+        for x in ast.walk(g):
+            if isinstance(x, ast.Name) and isinstance(x.ctx, (ast.Store, ast.Del)) and x.id in bind:
+                return None
+        body = [s for s in g.body if not (isinstance(s, ast.Expr) and isinstance(s.value, ast.Constant))]
+        yi = [i for i, s in enumerate(body) if isinstance(s, ast.Expr) and isinstance(s.value, ast.Yield)][0]
+
+        class _S(ast.NodeTransformer):
+            def visit_Name(self_, nm):
+                if isinstance(nm.ctx, ast.Load) and nm.id in bind:
+                    import copy as _c
+
+                    return _c.deepcopy(bind[nm.id])
+                return nm
+
+        import copy as _copy
+
+        def inst(stmts):
+            out = []
+            for s_ in stmts:
+                c_ = _S().visit(_copy.deepcopy(s_))
+                for x in ast.walk(c_):
+                    if hasattr(x, "lineno"):
+                        x.lineno = node.lineno
+                        x.end_lineno = getattr(node, "end_lineno", node.lineno)
+                out.append(c_)
+            return out
+
+        return pre_stmts + inst(body[:yi]) + list(node.body) + inst(body[yi + 1:])
+
+    def generic_visit(self, node):
+        super().generic_visit(node)
+        for fld in ("body", "orelse", "finalbody"):
+            stmts = getattr(node, fld, None)
+            if isinstance(stmts, list) and any(isinstance(s, ast.With) for s in stmts):
+                new = []
+                for s in stmts:
+                    rep = self._expand(s) if isinstance(s, ast.With) else None
+                    new.extend(rep if rep is not None else [s])
+                setattr(node, fld, new)
+        return node
+
+
 def canonicalise(trees: Dict[str, ast.Module]) -> Dict[str, str]:
     """rename renamed private anchors back (in the trees); returns {canonical name: name used in this tree}"""
     for t in trees.values():
         _Deannotate().visit(t)
+    for t in trees.values():
+        gens = {k: v for k, v in _cm_generators(t).items() if k.startswith("_")}
+        if gens:
+            _InlineCM(gens).visit(t)
+            ast.fix_missing_locations(t)
     mapping: Dict[str, str] = {}
     for canon, (mod, finder) in ROLES.items():
         tree = trees.get(mod)
